@@ -7,7 +7,7 @@ import subprocess
 from lib import common, fuzz, vbuild
 
 PROP = 'C02'
-RULE = ('(i) bounded-exhaustive enumeration of all sequences of 32 line-kind representatives up to length L (quick L=3, thorough L=4) and '
+RULE = ('(i) bounded-exhaustive enumeration of all sequences of 33 line-kind representatives (the plain line calls every kind of definition; one composite kind is blank+indented continuation) up to length L (quick L=3, thorough L=4), every ordered pair of kinds repeated 1200 (quick) or 3000 (thorough) times as one long document, and '
         'random sequences of length 5..12, each through 7 writers (html, latex, beamer, memoir, fodt, opml, itmz) x {MMD, compatibility}; '
         '(ii) coverage-guided fuzzing of arbitrary documents through the same writers/modes (+optional complete/process-html/critic bits). '
         'Oracle per conversion: control returns (exit() intercepted), fd 2 carries no "Unknown token type" / "Parser failed" / "Parser '
@@ -93,6 +93,12 @@ def run(tier):
             od = os.path.join(work, 'e%d_%d' % (length, i))
             os.makedirs(od)
             jobs.append((od, ['enum', str(length), str(i), str(n), od]))
+    # long documents: every ordered pair of kinds repeated (parser/engine counters that only matter past ~1000 blocks)
+    reps = 1200 if tier == 'quick' else 3000
+    for i in range(nsh):
+        od = os.path.join(work, 'p%d' % i)
+        os.makedirs(od)
+        jobs.append((od, ['repeat', str(reps), str(i), str(nsh), od]))
     nrand = int((1500 if tier == 'quick' else 40000) * common.budget_scale())
     for i in range(nsh):
         od = os.path.join(work, 'r%d' % i)
@@ -141,7 +147,7 @@ def run(tier):
     for sig, paths in cl.items():
         failures.append((sig, paths[0], ''))
     ev.extra['exhaustive'] = True
-    ev.extra['exhaustive_bound'] = 'all 32^k line-kind sequences for k <= %d, 7 writers x 2 modes' % L
+    ev.extra['exhaustive_bound'] = 'all 33^k line-kind sequences for k <= %d, 7 writers x 2 modes' % L
     rcode = 0
     seen = set()
     for sig, path, detail in failures:
